@@ -531,3 +531,120 @@ Proof.
   rewrite rdW_leW by exact Hlt.
   remember (reg2bin 14 5 s (alignment_end s (r_cigar r))) as b eqn:Eb. cbn [leW app skipn]. reflexivity.
 Qed.
+
+(* ---------- Subsequence::iter (repaired iterator) ---------- *)
+Lemma unpack_app : forall a b, unpack_bases (a ++ b) = unpack_bases a ++ unpack_bases b.
+Proof. induction a as [|x a IH]; intros b; cbn [app unpack_bases]; [reflexivity|]. rewrite IH. reflexivity. Qed.
+
+Lemma unpack_length : forall a, lenN (unpack_bases a) = 2 * lenN a.
+Proof. induction a as [|x a IH]; cbn [unpack_bases lenN]; [reflexivity|]. rewrite IH. lia. Qed.
+
+Lemma skipN_app_len : forall a s r, skipN (lenN a + s) (a ++ r) = skipN s r.
+Proof.
+  induction a as [|x a IH]; intros s r; cbn [lenN app].
+  - replace (0 + s) with s by lia. reflexivity.
+  - cbn [skipN]. destruct (1 + lenN a + s =? 0) eqn:E; [lia|].
+    replace (1 + lenN a + s - 1) with (lenN a + s) by lia. apply IH.
+Qed.
+
+Lemma skipN_0 : forall l, skipN 0 l = l.
+Proof. intros l. destruct l; reflexivity. Qed.
+
+Lemma firstnN_0 : forall l, firstnN 0 l = [].
+Proof. intros l. destruct l; reflexivity. Qed.
+
+Lemma skipN_1_cons : forall x l, skipN 1 (x :: l) = l.
+Proof. intros x l. cbn [skipN]. change (1 =? 0) with false. cbv iota. change (1 - 1) with 0. apply skipN_0. Qed.
+
+(* a slice inside the buffer splits the buffer around it *)
+Lemma sliceN_decomp : forall p i m, i + m <= lenN p ->
+  exists pre post, p = pre ++ sliceN i m p ++ post /\ lenN pre = i /\ lenN (sliceN i m p) = m.
+Proof.
+  induction p as [|x p IH]; intros i m H.
+  - cbn [lenN] in H. assert (i = 0) by lia. assert (m = 0) by lia. subst. exists [], []. repeat split.
+  - destruct (i =? 0) eqn:Ei.
+    + assert (i = 0) by lia. subst i. clear IH. unfold sliceN. rewrite skipN_0.
+      exists []. revert m H. generalize (x :: p). clear x p.
+      induction l as [|y l IHl]; intros m H.
+      * cbn [lenN] in H. assert (m = 0) by lia. subst. exists []. repeat split.
+      * cbn [firstnN]. destruct (m =? 0) eqn:Em.
+        -- exists (y :: l). split; [reflexivity|]. split; [reflexivity|]. cbn [lenN]. lia.
+        -- cbn [lenN] in H. destruct (IHl (m - 1) ltac:(lia)) as (post & Hp & _ & Hl).
+           exists post. cbn [app] in *. split; [f_equal; exact Hp|]. split; [reflexivity|].
+           cbn [lenN]. rewrite Hl. lia.
+    + cbn [lenN] in H. destruct (IH (i - 1) m ltac:(lia)) as (pre & post & Hp & Hpre & Hl).
+      exists (x :: pre), post. unfold sliceN in *. cbn [skipN]. rewrite Ei.
+      split; [cbn [app]; f_equal; exact Hp|]. split; [cbn [lenN]; lia|exact Hl].
+Qed.
+
+Lemma split_last_some : forall l, l <> [] -> exists w n, l = w ++ [n] /\ split_last l = Some (w, n).
+Proof.
+  induction l as [|x l IH]; intros H; [congruence|].
+  destruct l as [|y l].
+  - exists [], x. split; reflexivity.
+  - destruct (IH ltac:(discriminate)) as (w & n & Hl & Hs). exists (x :: w), n.
+    split; [cbn [app]; f_equal; exact Hl|]. cbn [split_last] in Hs |- *. rewrite Hs. reflexivity.
+Qed.
+
+Lemma lenN_0_nil : forall (A : Type) (l : list A), lenN l = 0 -> l = [].
+Proof. intros A l H. destruct l; [reflexivity|]. cbn [lenN] in H. lia. Qed.
+
+Lemma subsequence_iter_exact : forall packed start end_,
+  start <= end_ -> end_ <= 2 * lenN packed ->
+  sub_iter packed start end_ = firstnN (end_ - start) (skipN start (unpack_bases packed)).
+Proof.
+  intros packed start end_ Hse Hel. unfold sub_iter.
+  destruct (start <? end_) eqn:Elt.
+  2:{ assert (end_ = start) by lia. subst end_. replace (start - start) with 0 by lia. rewrite firstnN_0.
+      cbn [split_last fst snd]. destruct (start mod 2 =? 0); destruct (start mod 2 =? 0); reflexivity. }
+  set (i := start / 2). set (m := (end_ + 1) / 2 - i).
+  destruct (sliceN_decomp packed i m ltac:(subst i m; lia)) as (pre & post & Hp & Hpre & Hwl).
+  set (win := sliceN i m packed) in *.
+  assert (HU : unpack_bases packed = unpack_bases pre ++ unpack_bases win ++ unpack_bases post).
+  { rewrite Hp at 1. rewrite !unpack_app. reflexivity. }
+  rewrite HU.
+  assert (Hsk : forall s, start = 2 * i + s ->
+            skipN start (unpack_bases pre ++ unpack_bases win ++ unpack_bases post)
+            = skipN s (unpack_bases win ++ unpack_bases post)).
+  { intros s Hs. rewrite Hs. rewrite <- Hpre. rewrite <- unpack_length. apply skipN_app_len. }
+  destruct (end_ mod 2 =? 0) eqn:Ee; destruct (start mod 2 =? 0) eqn:Es; cbn [fst snd].
+  - (* both even *)
+    rewrite (Hsk 0) by (subst i; lia). rewrite skipN_0. rewrite app_nil_r. cbn [app].
+    replace (end_ - start) with (lenN (unpack_bases win)) by (rewrite unpack_length, Hwl; subst i m; lia).
+    symmetry. apply firstnN_app.
+  - (* start odd, end even *)
+    destruct win as [|n0 w] eqn:Ew; [cbn [lenN] in Hwl; subst i m; lia|].
+    rewrite (Hsk 1) by (subst i; lia). cbn [unpack_bases app]. rewrite skipN_1_cons. rewrite app_nil_r.
+    change (nth_base (n0 mod 16)) with (lo_base n0).
+    replace (end_ - start) with (lenN (lo_base n0 :: unpack_bases w))
+      by (cbn [lenN] in *; rewrite unpack_length; subst i m; lia).
+    symmetry. apply (firstnN_app (lo_base n0 :: unpack_bases w)).
+  - (* start even, end odd *)
+    destruct (split_last_some win) as (w & n & Hwn & Hsl).
+    { intros Hnil. rewrite Hnil in Hwl. cbn [lenN] in Hwl. subst i m. lia. }
+    rewrite Hsl. cbn [fst snd app]. rewrite (Hsk 0) by (subst i; lia). rewrite skipN_0.
+    rewrite Hwn, unpack_app. cbn [unpack_bases app]. change (nth_base ((n / 16) mod 16)) with (hi_base n).
+    rewrite <- !app_assoc. cbn [app].
+    replace (unpack_bases w ++ hi_base n :: nth_base (n mod 16) :: unpack_bases post)
+      with ((unpack_bases w ++ [hi_base n]) ++ nth_base (n mod 16) :: unpack_bases post)
+      by (rewrite <- app_assoc; reflexivity).
+    replace (end_ - start) with (lenN (unpack_bases w ++ [hi_base n])).
+    + symmetry. apply firstnN_app.
+    + rewrite lenN_app, unpack_length. cbn [lenN]. rewrite Hwn, lenN_app in Hwl. cbn [lenN] in Hwl.
+      subst i m. lia.
+  - (* both odd *)
+    destruct (split_last_some win) as (w & n & Hwn & Hsl).
+    { intros Hnil. rewrite Hnil in Hwl. cbn [lenN] in Hwl. subst i m. lia. }
+    rewrite Hsl. cbn [fst snd]. rewrite Hwn, lenN_app in Hwl. cbn [lenN] in Hwl.
+    destruct w as [|n0 w']; [cbn [lenN] in Hwl; subst i m; lia|]. cbn [lenN] in Hwl.
+    rewrite (Hsk 1) by (subst i; lia). rewrite Hwn, unpack_app. cbn [unpack_bases app].
+    rewrite skipN_1_cons. change (nth_base (n0 mod 16)) with (lo_base n0).
+    change (nth_base ((n / 16) mod 16)) with (hi_base n).
+    rewrite <- !app_assoc. cbn [app].
+    replace (lo_base n0 :: unpack_bases w' ++ hi_base n :: nth_base (n mod 16) :: unpack_bases post)
+      with ((lo_base n0 :: unpack_bases w' ++ [hi_base n]) ++ nth_base (n mod 16) :: unpack_bases post)
+      by (cbn [app]; rewrite <- app_assoc; reflexivity).
+    replace (end_ - start) with (lenN (lo_base n0 :: unpack_bases w' ++ [hi_base n])).
+    + symmetry. apply firstnN_app.
+    + cbn [lenN]. rewrite lenN_app, unpack_length. cbn [lenN]. subst i m. lia.
+Qed.
